@@ -37,6 +37,23 @@ def join(a, b):
     return U
 
 
+def _dead_for_none(g, nones):
+    """ids of the AST nodes of g that cannot run when the parameters `nones` are None: bodies of `if p is not None:` and else
+    branches of `if p is None:` (p never re-bound before the test is assumed only when p is not assigned in g at all)"""
+    dead = set()
+    if not nones:
+        return dead
+    assigned = {t.id for n in ast.walk(g.node) for t in ast.walk(n) if isinstance(t, ast.Name) and isinstance(t.ctx, ast.Store)}
+    for n in ast.walk(g.node):
+        if isinstance(n, ast.If) and isinstance(n.test, ast.Compare) and len(n.test.ops) == 1 and isinstance(n.test.left, ast.Name) and n.test.left.id in nones \
+                and n.test.left.id not in assigned and isinstance(n.test.comparators[0], ast.Constant) and n.test.comparators[0].value is None:
+            branch = n.body if isinstance(n.test.ops[0], ast.IsNot) else (n.orelse if isinstance(n.test.ops[0], ast.Is) else [])
+            for b in branch:
+                for x in ast.walk(b):
+                    dead.add(id(x))
+    return dead
+
+
 class _NullReport:
     def holds(self, *a, **k):
         pass
@@ -157,22 +174,30 @@ class Closed:
     def _nested_summary(self, e, st, depth=0):
         """tag of the value a nested multi-statement helper returns, analysed with its parameters bound to the tags of the
         arguments and its free variables to their tags at the call (the helper is a closure of this function)"""
-        if not (isinstance(e, ast.Call) and isinstance(e.func, ast.Name) and e.func.id in self.f.nested) or e.keywords or getattr(self, '_depth', 0) > 2:
+        if not (isinstance(e, ast.Call) and isinstance(e.func, ast.Name) and e.func.id in self.f.nested) or getattr(self, '_depth', 0) > 2:
             return None
         g = self.f.nested[e.func.id]
         ps = list(g.params)
-        if len(ps) != len(e.args) or any(isinstance(a, ast.Starred) for a in e.args):
+        if len(ps) < len(e.args) or any(isinstance(a, ast.Starred) for a in e.args) or any(k.arg is None or k.arg not in ps for k in e.keywords):
             return None
+        # keyword arguments and defaults: step(R, a=Symbol(a)) / step(R) for def step(R, a=None)
+        bound = dict(zip(ps, e.args))
+        for k in e.keywords:
+            bound[k.arg] = k.value
+        ndef = len(g.node.args.defaults)
+        for p0 in ps:
+            if p0 not in bound and p0 not in ps[len(ps) - ndef:]:
+                return None
         memo = self.__dict__.setdefault('_nested_memo', {})
-        key = (g.qualname, tuple(repr(self.tag(a, st)) for a in e.args), tuple(sorted((k, repr(v)) for k, v in st.items() if isinstance(k, str))))
+        key = (g.qualname, tuple((p0, repr(self.tag(bound[p0], st))) for p0 in ps if p0 in bound), tuple(sorted((k, repr(v)) for k, v in st.items() if isinstance(k, str))))
         if key in memo:
             return memo[key]
         memo[key] = U       # recursion guard
         sub = Closed(self.ctx, _NullReport(), g, cache_summary=self.cache_summary)
         sub._depth = getattr(self, '_depth', 0) + 1
         sub.init = dict(st)
-        for p, a in zip(ps, e.args):
-            sub.init[p] = self.tag(a, st)
+        for p in ps:
+            sub.init[p] = self.tag(bound[p], st) if p in bound else U
         sub.run()
         out = None
         for n in walk_no_nested(g.node):
@@ -225,7 +250,7 @@ class Closed:
 
     def transfer(self, node, st):
         s = node.stmt
-        if s is None:
+        if s is None or id(s) in getattr(self, 'dead', ()):
             return
         if node.kind == 'for':
             it = self.tag(s.iter, st)
@@ -347,7 +372,7 @@ class Closed:
 
     def require(self, kind, node, tag, what, ok_tags=(C,)):
         key = (kind, id(node))
-        if key in self.reported:
+        if key in self.reported or id(node) in getattr(self, 'dead', ()):
             return
         self.reported.add(key)
         base = tag[1] if isinstance(tag, tuple) and tag[0] == 'elem' else tag
@@ -365,26 +390,37 @@ class Closed:
         if getattr(self, '_depth', 0) <= 2:
             calls_of = {}
             for e in walk_no_nested(self.f.node):
-                if isinstance(e, ast.Call) and isinstance(e.func, ast.Name) and e.func.id in self.f.nested and not e.keywords and self._local_wrapper(e) is None:
+                if isinstance(e, ast.Call) and isinstance(e.func, ast.Name) and e.func.id in self.f.nested and self._local_wrapper(e) is None:
                     g = self.f.nested[e.func.id]
-                    if len(g.params) != len(e.args) or any(isinstance(a, ast.Starred) for a in e.args):
+                    if len(g.params) < len(e.args) or any(isinstance(a, ast.Starred) for a in e.args) or any(k.arg is None or k.arg not in g.params for k in e.keywords):
                         continue
                     st, nid = self.state_at(e)
                     init = dict(st)
-                    for p, a in zip(g.params, e.args):
-                        init[p] = self.tag(a, st)
-                    prev = calls_of.get(g.name)
+                    bound = dict(zip(g.params, e.args))
+                    bound.update({k.arg: k.value for k in e.keywords})
+                    for p in g.params:
+                        init[p] = self.tag(bound[p], st) if p in bound else U
+                    # parameters that are None at this call (left at a None default, or passed None): the helper's
+                    # `if p is not None:` parts do not run for this call -- call sites are grouped by that pattern
+                    ndef = len(g.node.args.defaults)
+                    dflt = dict(zip(g.params[len(g.params) - ndef:], g.node.args.defaults))
+                    nones = tuple(sorted(p for p in g.params if (p in bound and isinstance(bound[p], ast.Constant) and bound[p].value is None)
+                                         or (p not in bound and isinstance(dflt.get(p), ast.Constant) and dflt[p].value is None)))
+                    gkey = (g.name, nones)
+                    prev = calls_of.get(gkey)
                     if prev is None:
-                        calls_of[g.name] = (g, init)
+                        calls_of[gkey] = (g, init)
                     else:
                         merged = {}
                         for k in set(prev[1]) | set(init):
                             merged[k] = join(prev[1].get(k), init.get(k)) if (k in prev[1] and k in init) else U
-                        calls_of[g.name] = (g, merged)
-            for name, (g, init) in sorted(calls_of.items()):
+                        calls_of[gkey] = (g, merged)
+            for (name, nones), (g, init) in sorted(calls_of.items()):
                 sub = Closed(self.ctx, self.rep, g, cache_summary=self.cache_summary)
                 sub._depth = getattr(self, '_depth', 0) + 1
                 sub.init = init
+                sub.dead = _dead_for_none(g, nones)
+                sub.reported = self.__dict__.setdefault('_nested_reported', {}).setdefault(g.qualname, set())
                 n += sub.check()
         for e in walk_no_nested(self.f.node):
             # (i) acceptance decisions
@@ -662,8 +698,14 @@ def check_checker_targets(ctx, rep, f):
     a.run()
     n = 0
     for e in walk_no_nested(f.node):
-        if isinstance(e, ast.Compare) and len(e.ops) == 1 and isinstance(e.ops[0], (ast.NotEq, ast.Eq)) and isinstance(e.comparators[0], ast.Name) and 'expected' in e.comparators[0].id:
+        if isinstance(e, ast.Compare) and len(e.ops) == 1 and isinstance(e.ops[0], (ast.NotEq, ast.Eq)):
             st, nid = a.state_at(e)
-            a.require('iii', e, a.tag(e.comparators[0], st), 'recomputed target `{}` compared with the submitted target'.format(u(e.comparators[0])))
-            n += 1
+            sides = [e.left, e.comparators[0]]
+            tags = [a.tag(x, st) for x in sides]
+            # the side that the checker computed from the NFA (a step, a closure, directly or in a local helper)
+            computed = [i for i, t in enumerate(tags) if t in (C, R)]
+            if len(computed) == 1:
+                x = sides[computed[0]]
+                a.require('iii', e, tags[computed[0]], 'recomputed target `{}` compared with the submitted target'.format(u(x)))
+                n += 1
     return n
